@@ -19,6 +19,14 @@ def call(f, *args, **kwargs):
             return m(*args, **kwargs)
         # bound methods of builtin containers with symbolic arguments
         self = getattr(f, "__self__", None)
+        if isinstance(self, str) and getattr(f, "__name__", "") == "join" and len(args) == 1 and not kwargs:
+            items = list(args[0])
+            if any(getattr(x, "_sx_str", False) for x in items):
+                from . import sstr
+                return sstr.join(self, items)
+            return self.join(items)
+        if f is str and len(args) == 1 and getattr(args[0], "_sx_str", False):
+            return args[0]
         if self is not None and args and any_sym(args):
             name = getattr(f, "__name__", "")
             if isinstance(self, dict) and name == "get":
